@@ -40,6 +40,22 @@ type Case struct {
 	Method, Path string
 	Repeat       int  `json:",omitempty"` // build and run this many times (map-order dependent behaviour)
 	Started      bool `json:",omitempty"` // the app served a request before anything was registered or mounted (registration after the first start)
+	// RootMethods: the root app's Config.RequestMethods: 0 = default, 1 = GET and POST only, 2 = default plus PURGE,
+	// 3 = POST, GET, HEAD (another order). Sub-apps are created with the defaults, as fiber.New() does; the routes only
+	// use GET and POST, which every variant knows, so the flat registration is the same table.
+	RootMethods int `json:",omitempty"`
+}
+
+func rootMethods(k int) []string {
+	switch k {
+	case 1:
+		return []string{"GET", "POST"}
+	case 2:
+		return append(append([]string{}, fiber.DefaultMethods...), "PURGE")
+	case 3:
+		return []string{"POST", "GET", "HEAD"}
+	}
+	return nil
 }
 
 type obs struct{ trace []string }
@@ -102,6 +118,7 @@ func build(r fiber.Router, items []Item, o *obs, mode string, cfg fiber.Config, 
 				}
 			} else {
 				scfg := cfg
+				scfg.RequestMethods = nil // a sub-app is its own app with its own (default) method list
 				if it.SubCfg > 0 {
 					scfg.CaseSensitive, scfg.StrictRouting = (it.SubCfg-1)&1 != 0, (it.SubCfg-1)&2 != 0
 				}
@@ -164,7 +181,7 @@ type outcome struct {
 }
 
 func runOne(c Case, mode string) (out outcome, panicked string) {
-	cfg := fiber.Config{CaseSensitive: c.CS, StrictRouting: c.Strict}
+	cfg := fiber.Config{CaseSensitive: c.CS, StrictRouting: c.Strict, RequestMethods: rootMethods(c.RootMethods)}
 	o := &obs{}
 	defer func() {
 		if r := recover(); r != nil {
@@ -388,6 +405,9 @@ func genCase(t *rapid.T) Case {
 	g := &gen{t: t, used: map[string]bool{}, nested: map[string]bool{}}
 	c.Items = g.items(rapid.IntRange(1, 3).Draw(t, "depth"), "")
 	c.Method = rapid.SampledFrom([]string{"GET", "POST"}).Draw(t, "m")
+	if rapid.IntRange(0, 3).Draw(t, "rootmethods") == 0 {
+		c.RootMethods = rapid.IntRange(1, 3).Draw(t, "rootmethodsv")
+	}
 	var paths []string
 	collectPaths("", false, c.Items, false, &paths)
 	if len(paths) > 0 && rapid.IntRange(0, 4).Draw(t, "fromtree") != 0 {
